@@ -40,7 +40,7 @@ pub fn run(line: &str) -> String {
     }));
     let Ok(mut ts) = made else {
         return format!(
-            "PANIC-prealloc ||ORACLE:C10:F5-prealloc-exceeds-max TransformStream::new panics with prealloc={prealloc} max={max}"
+            "PANIC-new ||ORACLE:C10:constructor-panic TransformStream::new panics with prealloc={prealloc} max={max}"
         );
     };
     let mut s = format!("init=ok:{}", limiter.verif_current_usage());
